@@ -94,7 +94,9 @@ def pcov_M(X, y, mixing, direction):
         return mixing * (X @ X.T) + (1 - mixing) * (y @ y.T), False
     C = X.T @ X
     w, U = np.linalg.eigh(C)
-    amb = bool(np.any((w > 1e-14) & (w < 1e-10)))
+    # kept-or-grey by the absolute 1e-12 rule, yet numerically null relative to the largest
+    # eigenvalue (badly scaled data): the result then depends on rounding noise
+    amb = bool(np.any((w > 1e-14) & (w < max(1e-10, 1e-9 * w.max()))))
     keep = w > 1e-12
     Cis = (U[:, keep] / np.sqrt(w[keep])) @ U[:, keep].T
     Z = Cis @ (X.T @ y)
